@@ -255,6 +255,11 @@ def with_group(rng: random.Random, sc: dict) -> dict:
 
 def gen_c10(rng: random.Random, sid: str, thorough: bool = False) -> dict:
     delay = rng.choice([1000, 10000, 10000, 60000])
+    # a long delay with records at the 1125 s floor that are left to run out: 5 % of the TTL is less than the delay, so the
+    # last refresh attempt (95 %) falls less than one delay before the expiry
+    floor_mode = rng.random() < 0.12
+    if floor_mode:
+        delay = rng.choice([30000, 60000])
     types = [T1] if rng.random() < 0.6 else [T1, T2]
     n1, n2 = 6, 2
     steps: List[dict] = []
@@ -280,6 +285,8 @@ def gen_c10(rng: random.Random, sid: str, thorough: bool = False) -> dict:
     for _ in range(nrec):
         i = rng.choice(ids)
         ttl = rng.choice(TTLS) if rng.random() < 0.85 else rng.randint(1125, 12000)
+        if floor_mode:
+            ttl = rng.choice([120, 1125, 1125, 1200])
         r = rng.random()
         if cluster:
             i = ids_left.pop() if ids_left else i
@@ -293,7 +300,7 @@ def gen_c10(rng: random.Random, sid: str, thorough: bool = False) -> dict:
             learn = start_t + rng.randint(0, 4000000)
         events.append((learn, {'op': 'recv', 'items': [{'id': i, 'ttl': ttl, 'sp': rng.randint(0, 2)}]}))
         eff = max(ttl, 1125)
-        fate = rng.random()
+        fate = rng.random() if not floor_mode else 0.0
         if fate < 0.45:
             horizon = max(horizon, learn + eff * 1000 + 25000)          # let it expire
         elif fate < 0.8:
